@@ -806,7 +806,9 @@ func verifyFunction(prog *ssa.Program, db *ContractDB, fn *ssa.Function, c *Cont
 		for _, cl := range cc.Requires {
 			env := &specEnv{x: x, st: st, old: nil, vars: vars, fr: fr}
 			x.pure++
+			x.recordForalls = true
 			t, ok := x.evalClause(cl, fn, env, resolve)
+			x.recordForalls = false
 			x.pure--
 			if ok {
 				x.vc.assume(t)
@@ -826,6 +828,11 @@ func verifyFunction(prog *ssa.Program, db *ContractDB, fn *ssa.Function, c *Cont
 			}
 		}
 	}
+	// object invariants of parameters (non-owner code only; objinv.go)
+	for i, p := range fn.Params {
+		x.objInvAssume(fr, st, fr.params[i], p.Type(), -1)
+	}
+	x.objInvStaticChecks(fn)
 	// vacuity: the precondition must be satisfiable
 	x.vc.oblige(&Obligation{Name: name + "/cover:requires", Kind: "cover", Func: name, Goal: tTrue, ExpectSat: true, Props: x.props, Text: "requires satisfiable"})
 	x.entry = st.clone()
